@@ -78,11 +78,16 @@ func pascal(parts ...string) string {
 	return b.String()
 }
 
-// UpperSnake converts PascalCase to UPPER_SNAKE_CASE.
+// UpperSnake converts PascalCase to UPPER_SNAKE_CASE the documented way: a new word starts at an upper-case
+// letter that follows a lower-case letter, or that is followed by a lower-case letter (so an acronym stays one
+// word: HTTPOk -> HTTP_OK, FooJSONPascal -> FOO_JSON_PASCAL, FooID -> FOO_ID).
 func UpperSnake(s string) string {
+	isUpper := func(c byte) bool { return c >= 'A' && c <= 'Z' }
+	isLower := func(c byte) bool { return c >= 'a' && c <= 'z' }
 	var b strings.Builder
-	for i, c := range s {
-		if i > 0 && c >= 'A' && c <= 'Z' {
+	for i := 0; i < len(s); i++ {
+		c := s[i]
+		if i > 0 && isUpper(c) && (isLower(s[i-1]) || (i+1 < len(s) && isLower(s[i+1]))) {
 			b.WriteByte('_')
 		}
 		b.WriteString(strings.ToUpper(string(c)))
@@ -575,6 +580,18 @@ func (g *gen) genFileBody(f *File) {
 
 func (g *gen) genEnum(f *File, scope string) *Enum {
 	e := &Enum{ID: g.id("enum"), Name: lowerSnakeToPascal(g.word())}
+	if g.pct("acronymname", 15) {
+		// names with acronyms: the case conversions behind the naming rules have to keep an acronym in one word
+		acr := []string{"HTTP", "DNS", "UI", "JSON", "ID"}[g.intn("acronym", 0, 4)]
+		switch g.intn("acronymshape", 0, 2) {
+		case 0:
+			e.Name = e.Name + acr + []string{"Ok", "Id", "Op", "Up"}[g.intn("acronymtail", 0, 3)]
+		case 1:
+			e.Name = acr + e.Name
+		default:
+			e.Name = e.Name + acr
+		}
+	}
 	e.Comment = g.comment("enum", e.Name)
 	prefix := UpperSnake(e.Name) + "_"
 	n := g.intn("values", 1, 5)
